@@ -376,7 +376,10 @@ impl<R> Tokenizer<R> for NumberLiteral {
                     }
                 }
             }
-            Some(0x0065 /*e */ | 0x0045 /* E */) => {
+            // Only a decimal literal can have an ExponentPart: `0b1e1`, `0o7e1` and the legacy octal
+            // `07e1` are not numeric literals (in a hexadecimal literal `e` is a digit and has
+            // already been consumed).
+            Some(0x0065 /*e */ | 0x0045 /* E */) if kind.base() == 10 => {
                 kind = NumericKind::Rational;
                 cursor.next_char()?.expect("e or E character vanished"); // Consume the ExponentIndicator.
                 buf.push(b'E');
